@@ -450,8 +450,8 @@ fn run_transport(
                         metrics::verif::point("tcp.drive.pre", &[token.0 as i64, 1]);
                         let done = drive_connection(conn, wbuf, msgs);
                         if done {
+                            // The client is un-counted when it is actually removed, below.
                             clients_to_remove.push(*token);
-                            state.decrement_clients();
                             #[cfg(metrics_verif)]
                             metrics::verif::point("tcp.dec.post", &[token.0 as i64, state.client_count.load(Ordering::Acquire) as i64, state.should_send() as i64]);
                             continue;
@@ -479,7 +479,6 @@ fn run_transport(
                         let done = drive_connection(conn, wbuf, msgs);
                         if done {
                             clients_to_remove.push(*token);
-                            state.decrement_clients();
                             #[cfg(metrics_verif)]
                             metrics::verif::point("tcp.dec.post", &[token.0 as i64, state.client_count.load(Ordering::Acquire) as i64, state.should_send() as i64]);
                         }
